@@ -63,6 +63,29 @@ type BatchConfig struct {
 	ExtraFiles map[string]string // program name -> extra Go source placed next to it (C14/C15 support code)
 }
 
+// TrimCache removes a worker-private scratch build cache once it has grown
+// past limit bytes (the generated packages are never needed again; only the
+// dependencies are rebuilt, once, after a trim).
+func TrimCache(dir string, limit int64) {
+	if dir == "" {
+		return
+	}
+	var total int64
+	filepath.Walk(dir, func(_ string, info os.FileInfo, err error) error {
+		if err == nil && !info.IsDir() {
+			total += info.Size()
+		}
+		if total > limit {
+			return filepath.SkipAll
+		}
+		return nil
+	})
+	if total > limit {
+		exec.Command("chmod", "-R", "u+w", dir).Run()
+		os.RemoveAll(dir)
+	}
+}
+
 var pkgHeader = regexp.MustCompile(`(?m)^# (\S+)`)
 
 func goEnv(cfg BatchConfig) []string {
